@@ -15,6 +15,28 @@ CH_NOTE = ("Trusted: CPython, CrossHair 0.0.110's models of int/bool/str primiti
            "replayed under /venv/bin/python without CrossHair before it is reported.")
 
 CLAIMS = {
+    'C05': dict(
+        engine='CH',
+        technique='solver-driven path exploration of the real scanner pipeline with CrossHair/z3 (every '
+                  'combination of the finite-choice inputs is a solver-decided leaf; exhaustion certified by the '
+                  'solver); structural oracle over the emitted GIR; counterexamples replayed concretely',
+        category='model_checking',
+        text='Scenarios (function, method, callback, virtual method, callback field, record field, class property, '
+             'signal, alias, rename-to pairs) are generated from integer/boolean inputs: one value of each of 30 C '
+             'type kinds (resolvable, unresolvable, foreign, skipped, non-introspectable alias, va_list, long long, '
+             'long double, varargs, bare containers, callbacks) x skip/transfer/direction/scope/closure/destroy/'
+             '(type)/(element-type)/(array) annotations naming existing, missing and self references. Each is pushed '
+             'through Transformer.parse -> GDumpParser -> MainTransformer -> IntrospectablePass -> GIRWriter and the '
+             'emitted tree is checked by an executable statement of C05 (resolution, bindability, transfer, scope, '
+             'element types, index ranges, shadows/type-struct/accessor/invoker consistency). CrossHair enumerates '
+             'the input space with the solver deciding every branch and reports "Confirmed over all paths" per '
+             'partition (quick: ~50k paths; thorough: cross products of the annotation families).',
+        design_ref='DESIGN.md section 4, C05',
+        note=CH_NOTE + ' Finite-choice inputs are fixed by solver-decided binary search (vlib/sym.py) and the '
+             'pipeline then runs without opcode interception for that path. The runtime dump subprocess is replaced '
+             'by a fake element tree; GLib/GObject/Gio are namespace fragments. The oracle is calibrated on every '
+             'GIR file in the repository (concrete walk, reported in the evidence, not part of the claim). Three '
+             'classes of genuine violations are recorded in known_findings.txt and checked in separate items.'),
     'C13': dict(
         engine='CH',
         technique='symbolic execution of the real Python pipeline with CrossHair/z3 (bounded, per-path SMT); '
